@@ -226,6 +226,15 @@ class Eval:
                 except (ValueError, OverflowError, ZeroDivisionError):
                     raise NoValue('function %s outside its domain' % name)
             raise NoValue('function ' + str(name))
+        if op in ('x86.cvttps2dq', 'x86.cvtps2dq'):
+            # CVTTPS2DQ / CVTPS2DQ (Intel SDM): truncation / round-to-nearest-even (default MXCSR); NaN and values outside the int32 range give the integer indefinite 0x80000000
+            x = b2f(32, self.v(a[0]))
+            if x != x or x in (math.inf, -math.inf):
+                return 0x80000000
+            r = math.trunc(x) if op == 'x86.cvttps2dq' else round(x)
+            if not -(1 << 31) <= r <= (1 << 31) - 1:
+                return 0x80000000
+            return _m(r, 32)
         if op in ('fptosi', 'fptoui'):
             x = b2f(a[0].w, self.v(a[0]))
             if x != x or x in (math.inf, -math.inf):
